@@ -1,7 +1,7 @@
 (* The Gallina text generated from the current Go source of protocol.TarsRequest (Gen/Translated.v, regenerated on
    every run) computes the hand-written model Frame.Framing.tars_request, for every maximum and every buffer. *)
 From Coq Require Import List NArith ZArith Bool Lia ZifyBool ZifyNat ZifyN.
-From TarsV Require Import Base.Hex Frame.Framing Xlate.GoSem Gen.Translated.
+From TarsV Require Import Base.Hex Frame.Framing Xlate.GoSem Xlate.GoSemFacts Gen.Translated.
 Import ListNotations.
 Open Scope Z_scope.
 
@@ -24,15 +24,15 @@ Qed.
 Theorem tr_TarsRequest_equiv : forall (max : Z) (buf : list N),
   tr_TarsRequest max buf = Return (enc_pstat (tars_request (Z.to_N max) buf)).
 Proof.
-  intros max buf. unfold tr_TarsRequest, tars_request.
+  intros max buf. unfold tr_TarsRequest, tars_request. fold_bool.
   destruct buf as [|a [|b [|c [|d r]]]]; try reflexivity.
   assert (L : go_len (a :: b :: c :: d :: r) = 4 + Z.of_nat (length r)) by (unfold go_len; cbn [length]; lia).
   rewrite L.
-  replace (go_slice (a :: b :: c :: d :: r) 0 4) with [a; b; c; d] by reflexivity.
+  replace (go_slice (a :: b :: c :: d :: r) 0 4) with [a; b; c; d] by (rewrite go_slice_std by lia; reflexivity).
   replace (4 + Z.of_nat (length r) <? 4) with false by lia.
   replace (go_slice_ok (a :: b :: c :: d :: r) 0 4) with true by (unfold go_slice_ok; rewrite L; lia).
   replace (4 <=? go_len [a; b; c; d]) with true by reflexivity.
-  cbn [andb go_guard hdr].
+  cbn [andb hdr].
   set (l := (((a * 256 + b) * 256 + c) * 256 + d)%N).
   replace (go_be_u32 [a; b; c; d]) with (Z.of_N l) by (unfold go_be_u32, go_be, l; lia).
   replace (N.of_nat (length (a :: b :: c :: d :: r))) with (4 + N.of_nat (length r))%N by (cbn [length]; lia).
